@@ -22,6 +22,7 @@ EXTENDS Naturals, Sequences, FiniteSets, TLC, Json
 Trace == ndJsonDeserialize("trace.ndjson")
 
 VARIABLES l,            \* next line
+          caseLine,     \* line of the current case header
           cfg, created, \* configured resources / realised map elements of the case
           closes,       \* res -> number of Close calls
           runCalled, runRet, began, stopCalled, stopRet,
@@ -31,12 +32,12 @@ VARIABLES l,            \* next line
           beginsAfter,  \* section begins since then
           bound,
           lateCommit, closedOK, outcomeOK, endOK
-ovars == <<l, cfg, created, closes, runCalled, runRet, began, stopCalled, stopRet, ending, closeErr,
+ovars == <<l, caseLine, cfg, created, closes, runCalled, runRet, began, stopCalled, stopRet, ending, closeErr,
            blocked, beginsAfter, bound, lateCommit, closedOK, outcomeOK, endOK>>
 
 ToSet(s) == {s[i] : i \in 1..Len(s)}
 
-OInit == /\ l = 1 /\ cfg = {} /\ created = {} /\ closes = <<>> /\ runCalled = {} /\ runRet = {}
+OInit == /\ l = 1 /\ caseLine = 0 /\ cfg = {} /\ created = {} /\ closes = <<>> /\ runCalled = {} /\ runRet = {}
          /\ began = {} /\ stopCalled = {} /\ stopRet = {} /\ ending = <<>> /\ closeErr = FALSE
          /\ blocked = FALSE /\ beginsAfter = 0 /\ bound = 0
          /\ lateCommit = FALSE /\ closedOK = TRUE /\ outcomeOK = TRUE /\ endOK = TRUE
@@ -48,14 +49,14 @@ Count(res) == IF res \in DOMAIN closes THEN closes[res] ELSE 0
 AllClosedOnce == \A x \in cfg \cup created : Count(x) = 1
 EndingOf(r) == IF r \in DOMAIN ending THEN ending[r] ELSE "none"
 
-OCase == /\ Ev("case")
+OCase == /\ Ev("case") /\ caseLine' = l
          /\ cfg' = ToSet(T.cfg) /\ created' = {} /\ closes' = <<>> /\ runCalled' = {} /\ runRet' = {}
          /\ began' = {} /\ stopCalled' = {} /\ stopRet' = {} /\ ending' = <<>> /\ closeErr' = FALSE
          /\ blocked' = FALSE /\ beginsAfter' = 0 /\ bound' = T.bound
          /\ lateCommit' = FALSE /\ closedOK' = TRUE /\ outcomeOK' = TRUE /\ endOK' = TRUE
 
 ORunCall == /\ Ev("runcall") /\ runCalled' = runCalled \cup {T.r}
-            /\ UNCHANGED <<cfg, created, closes, runRet, began, stopCalled, stopRet, ending, closeErr,
+            /\ UNCHANGED <<caseLine, cfg, created, closes, runRet, began, stopCalled, stopRet, ending, closeErr,
                            blocked, beginsAfter, bound, lateCommit, closedOK, outcomeOK, endOK>>
 
 (* what Run may report, given how the run ended (Run's documented outcomes) *)
@@ -76,48 +77,48 @@ OutcomeOK(r, o) ==
 ORunRet == /\ Ev("runret") /\ runRet' = runRet \cup {T.r}
            /\ outcomeOK' = (outcomeOK /\ OutcomeOK(T.r, T))
            /\ closedOK' = (closedOK /\ ((T.r \in began /\ T.panic # "already") => AllClosedOnce))
-           /\ UNCHANGED <<cfg, created, closes, runCalled, began, stopCalled, stopRet, ending, closeErr,
+           /\ UNCHANGED <<caseLine, cfg, created, closes, runCalled, began, stopCalled, stopRet, ending, closeErr,
                           blocked, beginsAfter, bound, lateCommit, endOK>>
 
 OStopCall == /\ Ev("stopcall") /\ stopCalled' = stopCalled \cup {T.t}
-             /\ UNCHANGED <<cfg, created, closes, runCalled, runRet, began, stopRet, ending, closeErr,
+             /\ UNCHANGED <<caseLine, cfg, created, closes, runCalled, runRet, began, stopRet, ending, closeErr,
                             blocked, beginsAfter, bound, lateCommit, closedOK, outcomeOK, endOK>>
 OStopRet == /\ Ev("stopret") /\ stopRet' = stopRet \cup {T.t}
             /\ blocked' = (blocked /\ stopCalled # stopRet')      \* nobody is waiting any more
             /\ beginsAfter' = IF blocked' THEN beginsAfter ELSE 0
-            /\ UNCHANGED <<cfg, created, closes, runCalled, runRet, began, stopCalled, ending, closeErr,
+            /\ UNCHANGED <<caseLine, cfg, created, closes, runCalled, runRet, began, stopCalled, ending, closeErr,
                            bound, lateCommit, closedOK, outcomeOK, endOK>>
 OStopBlocked == /\ Ev("stopblocked")
                 /\ blocked' = (blocked \/ (T.t \notin stopRet /\ runCalled # runRet))
-                /\ UNCHANGED <<cfg, created, closes, runCalled, runRet, began, stopCalled, stopRet, ending,
+                /\ UNCHANGED <<caseLine, cfg, created, closes, runCalled, runRet, began, stopCalled, stopRet, ending,
                                closeErr, beginsAfter, bound, lateCommit, closedOK, outcomeOK, endOK>>
 
 OBegin == /\ Ev("begin") /\ began' = began \cup {T.r}
           /\ beginsAfter' = IF blocked THEN beginsAfter + 1 ELSE beginsAfter
-          /\ UNCHANGED <<cfg, created, closes, runCalled, runRet, stopCalled, stopRet, ending, closeErr,
+          /\ UNCHANGED <<caseLine, cfg, created, closes, runCalled, runRet, stopCalled, stopRet, ending, closeErr,
                          blocked, bound, lateCommit, closedOK, outcomeOK, endOK>>
 OSecEnd == /\ Ev("secend")
            /\ ending' = [x \in DOMAIN ending \cup {T.r} |-> IF x = T.r THEN T.kind ELSE ending[x]]
-           /\ UNCHANGED <<cfg, created, closes, runCalled, runRet, began, stopCalled, stopRet, closeErr,
+           /\ UNCHANGED <<caseLine, cfg, created, closes, runCalled, runRet, began, stopCalled, stopRet, closeErr,
                           blocked, beginsAfter, bound, lateCommit, closedOK, outcomeOK, endOK>>
 OCommit == /\ Ev("commit") /\ lateCommit' = (lateCommit \/ stopRet # {})
-           /\ UNCHANGED <<cfg, created, closes, runCalled, runRet, began, stopCalled, stopRet, ending,
+           /\ UNCHANGED <<caseLine, cfg, created, closes, runCalled, runRet, began, stopCalled, stopRet, ending,
                           closeErr, blocked, beginsAfter, bound, closedOK, outcomeOK, endOK>>
 OCreate == /\ Ev("create") /\ created' = created \cup {T.res}
-           /\ UNCHANGED <<cfg, closes, runCalled, runRet, began, stopCalled, stopRet, ending, closeErr,
+           /\ UNCHANGED <<caseLine, cfg, closes, runCalled, runRet, began, stopCalled, stopRet, ending, closeErr,
                           blocked, beginsAfter, bound, lateCommit, closedOK, outcomeOK, endOK>>
 OClose == /\ Ev("close")
           /\ closes' = [x \in DOMAIN closes \cup {T.res} |-> IF x = T.res THEN Count(x) + 1 ELSE closes[x]]
           /\ closeErr' = (closeErr \/ T.err)
-          /\ UNCHANGED <<cfg, created, runCalled, runRet, began, stopCalled, stopRet, ending,
+          /\ UNCHANGED <<caseLine, cfg, created, runCalled, runRet, began, stopCalled, stopRet, ending,
                          blocked, beginsAfter, bound, lateCommit, closedOK, outcomeOK, endOK>>
 OEnd == /\ Ev("end")
         /\ endOK' = (endOK /\ T.why = "complete" /\ stopCalled = stopRet /\ runCalled = runRet)
-        /\ UNCHANGED <<cfg, created, closes, runCalled, runRet, began, stopCalled, stopRet, ending, closeErr,
+        /\ UNCHANGED <<caseLine, cfg, created, closes, runCalled, runRet, began, stopCalled, stopRet, ending, closeErr,
                        blocked, beginsAfter, bound, lateCommit, closedOK, outcomeOK>>
 OSkip == /\ l <= Len(Trace) /\ Trace[l].e \in {"obs", "enter", "closegate", "closeopen", "note"}
          /\ l' = l + 1
-         /\ UNCHANGED <<cfg, created, closes, runCalled, runRet, began, stopCalled, stopRet, ending, closeErr,
+         /\ UNCHANGED <<caseLine, cfg, created, closes, runCalled, runRet, began, stopCalled, stopRet, ending, closeErr,
                         blocked, beginsAfter, bound, lateCommit, closedOK, outcomeOK, endOK>>
 
 ONext == OCase \/ ORunCall \/ ORunRet \/ OStopCall \/ OStopRet \/ OStopBlocked \/ OBegin \/ OSecEnd
@@ -138,4 +139,16 @@ EveryStopReturns == endOK
 (* ... once the archetype has stopped at a label boundary: counted in section begins after *)
 (* a Stop call was seen waiting, never in time.                                            *)
 StopsAtLabelBoundary == beginsAfter <= bound
+
+(* The judge: evaluated by TLC on every state of the folded trace. It never stops the fold (so one *)
+(* pass judges every recorded case) and reports <<"VIOLATED", case header line, line, names>>.     *)
+Violated == SelectSeq(<<"RunsAtMostOnce", "NoCommitAfterStopReturned", "ClosedExactlyOnce",
+                        "DistinctOutcomes", "EveryStopReturns", "StopsAtLabelBoundary">>,
+                      LAMBDA n : ~(CASE n = "RunsAtMostOnce" -> RunsAtMostOnce
+                                     [] n = "NoCommitAfterStopReturned" -> NoCommitAfterStopReturned
+                                     [] n = "ClosedExactlyOnce" -> ClosedExactlyOnce
+                                     [] n = "DistinctOutcomes" -> DistinctOutcomes
+                                     [] n = "EveryStopReturns" -> EveryStopReturns
+                                     [] OTHER -> StopsAtLabelBoundary))
+Judge == IF Violated # <<>> THEN PrintT(<<"VIOLATED", caseLine, l - 1, Violated>>) ELSE TRUE
 =============================================================================
